@@ -227,6 +227,7 @@ def run(ctx: Ctx):
     from formulaic.errors import FactorEncodingError, DataMismatchWarning
     rng = ctx.fork("c09")
     lits, descr = [], []
+    wlits, wdescr = [], []
     n = ctx.n(450, 8000)
     tries = 0
     while len(lits) < n and tries < 10 * n:
@@ -251,6 +252,10 @@ def run(ctx: Ctx):
             exp, kind, det = c04.run_replay(ms, frame2, [], rng.random() < 0.3, quiet=False)
         mismatch_warned = any(issubclass(w.category, DataMismatchWarning) for w in wlist)
         lits.append(c04.rcase_literal(slit, frame2, [], exp))
+        if kind == "ok":
+            # the warning itself: model `warns` against what was announced
+            wlits.append("{| w_spec := %s; w_frame := %s; w_warned := %s |}" % (slit, frame2.coq(), "true" if mismatch_warned else "false"))
+            wdescr.append({"train": frame.describe(), "terms": terms, "followup": frame2.describe(), "events": events, "announced": mismatch_warned})
         rp = {"train": frame.describe(), "terms": terms, "ensure_full_rank": efr, "followup": frame2.describe(), "events": events, "implementation": kind}
         descr.append(rp)
         ctx.count("pairs", "outcome=" + kind.split(":")[0])
@@ -302,6 +307,7 @@ def run(ctx: Ctx):
     for _ in range(ctx.n(60, 600)):
         _kind_flips(ctx, rng)
     ctx.run_cases("pairs", c04.RIMPORTS, "", "rcase", "chk_replay", lits, descr, shard=150)
+    ctx.run_cases("warnings", c04.RIMPORTS, "", "wcase", "chk_warn", wlits, wdescr, shard=150)
 
 
 def search(ctx: Ctx):
